@@ -9,7 +9,12 @@ for d in sorted((V / "seeded").iterdir()):
     if not d.is_dir() or (only and d.name not in only):
         continue
     pid = d.name[:3]
-    out = subprocess.run([str(V / "tools" / "seedtest.sh"), "seeded/" + d.name, "quick"], capture_output=True, text=True).stdout
+    # a seed written for one property may in fact break the statement of another one (recorded in
+    # seeded/<id>/checked_by together with the reason): then that property's check is the detector
+    by = (d / "checked_by").read_text().split()[0] if (d / "checked_by").exists() else pid
+    import os
+    out = subprocess.run([str(V / "tools" / "seedtest.sh"), "seeded/" + d.name, "quick"], capture_output=True, text=True,
+                         env=dict(os.environ, PID=by)).stdout
     tests = re.search(r"== pinned tests with the change:\n(.*)", out)
     demo = re.search(r"demo exit=(\d+)", out)
     chk = re.search(r"check exit=(\d+)", out)
@@ -17,6 +22,7 @@ for d in sorted((V / "seeded").iterdir()):
     notes = (d / "notes.md").read_text() if (d / "notes.md").exists() else ""
     meta = {
         "property": pid,
+        "checked_by": by,
         "title": props[pid]["title"],
         "source": "written by an independent sub-agent from the property text only (own scratch worktree, nothing from /verif)",
         "needs_to_manifest": " ".join(notes.split())[:900],
